@@ -327,3 +327,102 @@ Proof.
   intros Hrt a b r1 r2 Ha Hb E. pose proof (Hrt a r1 Ha) as H1. rewrite E, (Hrt b r2 Hb) in H1.
   injection H1 as -> ->. split; reflexivity.
 Qed.
+
+(* ---- canonical encoding of a set / map field ---- *)
+Require Import Coq.Sorting.Permutation Coq.Sorting.Sorted.
+Section CanonSetLemmas.
+Variable A : Type.
+Variable leb : A -> A -> bool.
+Variable e : A -> bytes.
+Hypothesis leb_total : forall a b, leb a b = true \/ leb b a = true.
+Hypothesis leb_trans : forall a b c, leb a b = true -> leb b c = true -> leb a c = true.
+Hypothesis leb_antisym : forall a b, leb a b = true -> leb b a = true -> a = b.
+Notation le := (fun a b => leb a b = true).
+Notation ins := (ins A leb).
+Notation canon := (canon A leb).
+
+Lemma ins_perm x l : Permutation (ins x l) (x :: l).
+Proof.
+  induction l as [|y r IH]; cbn [Formats.ins]; [apply Permutation_refl|].
+  destruct (leb x y); [apply Permutation_refl|].
+  eapply perm_trans; [apply perm_skip, IH|apply perm_swap].
+Qed.
+Lemma canon_perm l : Permutation (canon l) l.
+Proof.
+  induction l as [|x l IH]; [apply perm_nil|]. unfold Formats.canon in *. cbn [fold_right].
+  eapply perm_trans; [apply ins_perm|apply perm_skip, IH].
+Qed.
+Lemma ins_sorted x l : StronglySorted le l -> StronglySorted le (ins x l).
+Proof.
+  induction l as [|y r IH]; intro H; cbn [Formats.ins]; [repeat constructor|].
+  inversion H as [|y' r' Hs Hall]; subst. destruct (leb x y) eqn:E.
+  - constructor; [exact H|]. constructor; [exact E|].
+    apply Forall_forall. intros z Hz. apply (leb_trans x y z E). rewrite Forall_forall in Hall. apply Hall, Hz.
+  - constructor; [apply IH, Hs|]. apply Forall_forall. intros z Hz.
+    apply (Permutation_in _ (ins_perm x r)) in Hz. destruct Hz as [<-|Hz].
+    + destruct (leb_total x y) as [Hc|Hc]; [rewrite Hc in E; discriminate|exact Hc].
+    + rewrite Forall_forall in Hall. apply Hall, Hz.
+Qed.
+Lemma canon_sorted l : StronglySorted le (canon l).
+Proof.
+  induction l as [|x l IH]; [constructor|]. unfold Formats.canon in *. cbn [fold_right]. apply ins_sorted, IH.
+Qed.
+(* two sorted lists with the same elements are the same list *)
+Lemma sorted_perm_eq l : forall l', StronglySorted le l -> StronglySorted le l' -> Permutation l l' -> l = l'.
+Proof.
+  induction l as [|a l IH]; intros l' Hs Hs' Hp.
+  - apply Permutation_nil in Hp. symmetry. exact Hp.
+  - destruct l' as [|b l']; [apply Permutation_sym, Permutation_nil in Hp; discriminate|].
+    inversion Hs as [|? ? Hsl Hal]; subst. inversion Hs' as [|? ? Hsl' Hal']; subst.
+    rewrite Forall_forall in Hal, Hal'.
+    assert (a = b) as ->.
+    { assert (In b (a :: l)) as Hb by (apply (Permutation_in _ (Permutation_sym Hp)); left; reflexivity).
+      assert (In a (b :: l')) as Ha by (apply (Permutation_in _ Hp); left; reflexivity).
+      destruct Hb as [Hb|Hb]; [exact Hb|]. destruct Ha as [Ha|Ha]; [symmetry; exact Ha|].
+      apply leb_antisym; [apply Hal, Hb|apply Hal', Ha]. }
+    f_equal. apply IH; [exact Hsl|exact Hsl'|]. apply Permutation_cons_inv in Hp. exact Hp.
+Qed.
+Theorem canon_unique l l' : Permutation l l' -> canon l = canon l'.
+Proof.
+  intro Hp. apply sorted_perm_eq; [apply canon_sorted|apply canon_sorted|].
+  eapply perm_trans; [apply canon_perm|]. eapply perm_trans; [exact Hp|]. apply Permutation_sym, canon_perm.
+Qed.
+(* the bytes written for a set depend on its contents only, not on the order the container yields them *)
+Theorem set_encoding_canonical l l' : Permutation l l' -> e_set A leb e l = e_set A leb e l'.
+Proof. intro Hp. unfold Formats.e_set. rewrite (canon_unique l l' Hp). reflexivity. Qed.
+End CanonSetLemmas.
+(* written in iteration order, the same set has two encodings (the behaviour before the fix) *)
+Lemma seq_encoding_not_canonical :
+  Permutation [1%N; 2%N] [2%N; 1%N] /\ e_seq N e_u8 [1%N; 2%N] <> e_seq N e_u8 [2%N; 1%N].
+Proof. split; [apply perm_swap|]. vm_compute. discriminate. Qed.
+
+Lemma bytes_leb_total a : forall b, bytes_leb a b = true \/ bytes_leb b a = true.
+Proof.
+  induction a as [|x a IH]; intros [|y b]; cbn [bytes_leb]; try (left; reflexivity); try (right; reflexivity).
+  destruct (N.ltb_spec x y) as [H|H]; [left; reflexivity|].
+  destruct (N.ltb_spec y x) as [H'|H']; [right; reflexivity|].
+  assert (x = y) as -> by lia. rewrite N.eqb_refl. apply IH.
+Qed.
+Lemma bytes_leb_antisym a : forall b, bytes_leb a b = true -> bytes_leb b a = true -> a = b.
+Proof.
+  induction a as [|x a IH]; intros [|y b]; cbn [bytes_leb]; try discriminate; [reflexivity|].
+  destruct (N.ltb_spec x y) as [H|H].
+  - intros _. destruct (N.ltb_spec y x) as [H'|H']; [exfalso; lia|]. destruct (N.eqb_spec y x) as [E|E]; [exfalso; lia|discriminate].
+  - destruct (N.eqb_spec x y) as [->|E]; [|discriminate]. rewrite N.ltb_irrefl, N.eqb_refl. intros H1 H2. f_equal. apply IH; assumption.
+Qed.
+Lemma bytes_leb_trans a : forall b c, bytes_leb a b = true -> bytes_leb b c = true -> bytes_leb a c = true.
+Proof.
+  induction a as [|x a IH]; intros [|y b] [|z c]; cbn [bytes_leb]; try discriminate; try reflexivity.
+  intros H1 H2.
+  destruct (N.ltb_spec x z) as [Hxz|Hxz]; [reflexivity|].
+  destruct (N.ltb_spec x y) as [Hxy|Hxy].
+  - destruct (N.ltb_spec y z) as [Hyz|Hyz]; [exfalso; lia|]. destruct (N.eqb_spec y z) as [E|E]; [exfalso; lia|discriminate].
+  - destruct (N.eqb_spec x y) as [E|E]; [subst y|discriminate].
+    destruct (N.ltb_spec x z) as [Hyz|Hyz]; [exfalso; lia|].
+    destruct (N.eqb_spec x z) as [E2|E2]; [|discriminate]. apply (IH b c); assumption.
+Qed.
+(* the tag field of a secret's meta data: equal sets of tags give equal bytes *)
+Theorem tagset_encoding_canonical l l' : Permutation l l' -> e_tagset l = e_tagset l'.
+Proof.
+  apply set_encoding_canonical; [exact bytes_leb_total|intros a b c; apply bytes_leb_trans|intros a b; apply bytes_leb_antisym].
+Qed.
